@@ -81,7 +81,9 @@ def run(ctx):
         case(ver, rs=[(b'Content-Type', [b''])], rs_ct=False)
         case(ver, rs=[(b'Content-Type', [b'', b'text/plain'])], rs_ct=False)
     # b3 cacheability grid
-    DIRS = [b'no-store', b'private', b'public', b'max-age=60', b's-maxage=5', b'no-cache', b'junk', b'No-Store', b' private ', b'max-age', b'x=no-store', b'"no-store"', b'PUBLIC']
+    DIRS = [b'no-store', b'private', b'public', b'max-age=60', b's-maxage=5', b'no-cache', b'junk', b'No-Store', b' private ', b'max-age', b'x=no-store', b'"no-store"', b'PUBLIC',
+            # quoted-string arguments: with commas, escaped quotes (odd / even), unterminated -- the implementation splits at every comma
+            b'ext="a\\"b"', b'ext="a\\"b\\"c"', b'ext="a,no-store"', b'ext="a, private ,b"', b'ext="x', b'no-cache="set-cookie,x"', b'ext="\\\\"', b'private="a"', b'max-age="60"']
     statuses = list(range(100, 600)) if thorough else [100, 199, 200, 201, 203, 204, 206, 226, 300, 301, 302, 304, 307, 308, 400, 404, 405, 410, 414, 418, 451, 500, 501, 511, 599, 306, 209]
     for st in statuses:
         case('b3', status=st)
@@ -96,6 +98,12 @@ def run(ctx):
                 else: rs.append((b'Cache-Control', ds))
             if rng.random() < 0.3: rs.append((b'Expires', [rng.choice([b'Thu, 01 Dec 1994 16:00:00 GMT', b'0', b''])]))
             case('b3', status=st, rs=rs)
+    # a quoted argument placed before the directive that decides
+    for st in (200, 201, 302):
+        for q in (b'ext="a\\"b"', b'ext="a,b"', b'ext="a\\"b\\"c"', b'ext="x'):
+            for d in (b'no-store', b'private', b'max-age=60', b's-maxage=5', b'public'):
+                case('b3', status=st, rs=[(b'Cache-Control', [q + b', ' + d])])
+                case('b3', status=st, rs=[(b'Cache-Control', [d + b', ' + q])])
     # sign everything with the real code
     ops, meta = [], []
     for e, sp, times in cases:
